@@ -55,6 +55,19 @@ pub fn run(ctx: &mut Ctx) {
         or.eval(("setlen", c), true);
     }
     or.exhaustive.push("all 65536 content lengths for the padding rule".into());
+    // one header value reused for the next record (what StreamWriter does): the rule holds whatever the previous lengths were
+    log.case("flat-padding-reused-header");
+    let mut pairs: Vec<(u32, u32)> = vec![];
+    for a in 0..=17u32 { for b in [0u32, 1, 7, 8, 9, 16, 24, 65528, 65535] { pairs.push((a, b)); } }
+    for _ in 0..3000 { pairs.push((rng.below(65536) as u32, if rng.chance(1, 2) { (rng.below(8192) * 8) as u32 } else { rng.below(65536) as u32 })); }
+    for (a, b) in pairs {
+        let op = format!("hdr.setlen2 {a} {b}");
+        let o = ex(&mut log, &mut im, &op);
+        let mut it = o.split(' ');
+        let (cl, p): (u32, u32) = (it.next().and_then(|x| x.parse().ok()).unwrap_or(99999), it.next().and_then(|x| x.parse().ok()).unwrap_or(99999));
+        if !(cl == b && p < 8 && (b + p) % 8 == 0) { fail(&mut or, format!("set_lengths({a}) then set_lengths({b}) on one header gives content {cl} padding {p}: not (<8 and multiple of 8)"), op); }
+        or.eval(("setlen2", a, b), true);
+    }
 
     log.case("flat-bodies");
     for role in 0..=65535u32 {
